@@ -26,12 +26,36 @@ class SimKill(BaseException):
   """Raised inside parked simulated threads when the run is torn down."""
 
 
-class Sched:
-  def __init__(self, rng=None, schedule=None, step_cap=20000, stay_bias=0.0):
+class Chooser:
+  """Source of every scheduling decision of a run: an explicit list (replay / shrinking; after the
+  list is exhausted always choice 0 = keep running the current task) or the `sched` PRNG stream.
+  Shared by all Sched instances of one run (a run may restart its simulated process)."""
+
+  def __init__(self, rng=None, schedule=None, stay_bias=0.0):
     self.rng = rng
     self.schedule = list(schedule) if schedule is not None else None
     self.pos = 0
-    self.trace = []  # every choice made: index into the candidate list
+    self.trace = []
+    self.stay_bias = stay_bias
+
+  def pick(self, n):
+    if n == 1:
+      return 0  # not a real choice: neither recorded nor consumed
+    if self.schedule is not None:
+      idx = self.schedule[self.pos] % n if self.pos < len(self.schedule) else 0
+      self.pos += 1
+    elif self.stay_bias and self.rng.random() < self.stay_bias:
+      idx = 0
+    else:
+      idx = self.rng.randrange(n)
+    self.trace.append(idx)
+    return idx
+
+
+class Sched:
+  def __init__(self, rng=None, schedule=None, step_cap=20000, stay_bias=0.0, chooser=None):
+    self.chooser = chooser or Chooser(rng, schedule, stay_bias)
+    self.trace = self.chooser.trace  # every choice made: index into the candidate list
     self.tasks = {}
     self.order = []
     self.next_id = 0
@@ -42,7 +66,6 @@ class Sched:
     self.deadlock = None
     self.log = []  # (task name, why, chosen task name)
     self.threads = []
-    self.stay_bias = stay_bias
     self.on_step = None
     self.main = self._new('main')
     self.local.tid = self.main
@@ -71,22 +94,7 @@ class Sched:
     return c
 
   def _pick(self, n):
-    if n == 1:
-      # not a real choice: recorded neither in the trace nor consumed from the schedule
-      return 0
-    if self.schedule is not None:
-      if self.pos < len(self.schedule):
-        idx = self.schedule[self.pos] % n
-      else:
-        idx = 0
-      self.pos += 1
-    else:
-      if self.stay_bias and self.rng.random() < self.stay_bias:
-        idx = 0
-      else:
-        idx = self.rng.randrange(n)
-    self.trace.append(idx)
-    return idx
+    return self.chooser.pick(n)
 
   def _park(self, me):
     self.tasks[me]['sem'].acquire()
